@@ -154,6 +154,7 @@ func VerifyFunction(p *Prog, fn *ssa.Function, c *Contract) (vc *VC) {
 	// cover: preconditions are satisfiable
 	vc.addCover(st, "entry")
 	out, results, ok := f.execBody(st)
+	vc.checkAnchors()
 	if !ok || out == nil {
 		return vc
 	}
